@@ -8,34 +8,25 @@ _KP_MOD = "ufo2ft.featureWriters.kernFeatureWriter"
 _FG, _SG = "pair.firstGlyphs", "pair.secondGlyphs"
 
 
-def _dir_inv(k, n):
-    """invariants about side{k}Directions after the first n glyphs of that side (G = the side's glyph tuple): every direction's
-    set is non-empty and holds only glyphs of the side that have their resolved scripts recorded; for a single-glyph side
-    every set is that glyph alone"""
-    G = _FG if k == 1 else _SG
+def _dir_inv(k):
+    """safety invariants about side{k}Directions: every glyph in a direction's set has its resolved scripts recorded; for a
+    single-glyph side every direction's set is that glyph alone (element-wise: set equalities under a quantifier are avoided)"""
     D = f"side{k}Directions"
     side = f"pair.side{k}"
     return {
-        f"resolved.{k}": f"all({G}[m] in resolvedScripts for m in range({n}))",
-        f"members.{k}": f"all({D}[d] != set() and all(g in resolvedScripts and any({G}[m] == g for m in range({n})) for g in {D}[d]) for d in set({D}))",
-        f"single.{k}": f"implies(not isinstance({side}, tuple), all({D}[d] == {{{side}}} for d in set({D})))",
+        f"members.{k}": f"all(all(g in resolvedScripts for g in {D}[d]) for d in set({D}))",
+        f"single.{k}": f"implies(not isinstance({side}, tuple), all({side} in {D}[d] and all(g == {side} for g in {D}[d]) for d in set({D})))",
     }
 
 
 def _part_loops():
-    one = _dir_inv(1, "i")
-    one_inner = {**_dir_inv(1, "i"), "this": "glyph == " + _FG + "[i] and glyph in resolvedScripts"}
-    two = {**_dir_inv(1, "len(" + _FG + ")"), **_dir_inv(2, "i2")}
-    two_inner = {**_dir_inv(1, "len(" + _FG + ")"), **_dir_inv(2, "i2"), "this": "glyph == " + _SG + "[i2] and glyph in resolvedScripts"}
-    # inside the inner loops the current glyph may already be a member: the membership bound is i + 1 there
-    one_inner.update({k: v.replace("range(i)", "range(i + 1)") for k, v in _dir_inv(1, "i").items() if k.startswith(("members", "resolved"))})
-    two_inner.update({k: v.replace("range(i2)", "range(i2 + 1)") for k, v in _dir_inv(2, "i2").items() if k.startswith(("members", "resolved"))})
+    this = lambda k: {f"this.{k}": f"glyph in resolvedScripts and implies(not isinstance(pair.side{k}, tuple), glyph == pair.side{k})"}
     gen = "for direction in (script_direction(script) for script in sorted(scripts))"
     return {
-        "for glyph in pair.firstGlyphs": Loop(index="i", invariants=one),
-        gen + "#1": Loop(index="j", invariants=one_inner),
-        "for glyph in pair.secondGlyphs": Loop(index="i2", invariants=two),
-        gen + "#2": Loop(index="j2", invariants=two_inner),
+        "for glyph in pair.firstGlyphs": Loop(index="i1", invariants=_dir_inv(1)),
+        gen + "#1": Loop(index="j1", invariants={**_dir_inv(1), **this(1)}),
+        "for glyph in pair.secondGlyphs": Loop(index="i2", invariants={**_dir_inv(1), **_dir_inv(2)}),
+        gen + "#2": Loop(index="j2", invariants={**_dir_inv(1), **_dir_inv(2), **this(2)}),
     }
 
 
